@@ -89,6 +89,7 @@ def main(ctx):
             if tier == "thorough":
                 jobs.append({"kind": "pairs", "cls": cls, "form": fi, "w": 4})
         jobs.append({"kind": "count", "cls": cls, "w": 1})
+        jobs.append({"kind": "alone", "cls": cls, "w": 2})
         jobs.append({"kind": "exotic", "cls": cls, "w": 2})
     for lo in range(0, 256, 32):
         jobs.append({"kind": "code", "lo": lo, "hi": lo + 32, "w": 1})
@@ -124,7 +125,8 @@ def main(ctx):
         ctx.require("octets:" + cfg)
     for k in ("verdict:accept", "verdict:reject", "verdict:either", "outcome:accepted",
               "outcome:protocol-error", "kind:mut", "kind:count", "kind:code", "kind:uri",
-              "kind:validator", "kind:octets2", "kind:subst", "kind:exotic", "exotic:ubjson",
+              "kind:validator", "kind:octets2", "kind:subst", "kind:exotic", "kind:alone",
+              "option_alone_cases", "exotic:ubjson",
               "exotic:cbor", "exotic:msgpack", "exotic:json", "uri_accepted", "uri_rejected",
               "octets_decoded_to_message"):
         ctx.require(k)
@@ -732,6 +734,32 @@ def job(a):
                         env.structure(st, "+".join(ks), None, "%s %s: %s %s" % (cls, label, "+".join(ks), how))
         samples.append({"kind": "mut", "class": cls, "form": label, "paths": len(paths),
                         "values": len(TYPED), "example_path": _path_str(paths[-1])})
+    elif kind == "alone":
+        # every option / detail key ALONE on the minimal form (the maximal seeds above carry every
+        # known key at once, so a check that leans on a neighbouring key being present - a variable
+        # bound in the neighbour's branch, a guard tied to another detail - is never reached there)
+        cls = a["cls"]
+        spec = G.MESSAGES[cls]
+        forms = G.base_forms(cls)
+        minimal = G.build(spec, {})
+        keys = {}
+        if spec.dict_index is not None:
+            for label, w in forms:
+                if len(w) > spec.dict_index and isinstance(w[spec.dict_index], dict):
+                    for k, v in w[spec.dict_index].items():
+                        keys.setdefault(k, v)
+        n = 0
+        for k, valid in keys.items():
+            if len(minimal) <= spec.dict_index or k in minimal[spec.dict_index]:
+                continue
+            field = _field(G, cls, (spec.dict_index, k))
+            for v in [valid] + list(TYPED):
+                st = _copy(minimal)
+                st[spec.dict_index][k] = _copy(v)
+                n += 1
+                env.count("option_alone_cases")
+                env.structure(st, field, v, "%s minimal + only %s := %s" % (cls, k, G._short(v)))
+        samples.append({"kind": "alone", "class": cls, "keys": len(keys), "cases": n})
     elif kind == "pairs":
         cls = a["cls"]
         label, w = G.base_forms(cls)[a["form"]]
